@@ -213,6 +213,8 @@ structure State where
   counters : Counters := {}
   nextToken : Nat := 0
   nextDep : Nat := 0
+  /-- fault injection (C13): panic at the k-th user-closure invocation from now -/
+  panicCountdown : Option Nat := none
   currentlyRunning : Option Nat := none      -- `only_in_debug.currently_running_node`
   alive : Bool := true                      -- false once the `IncrState` is dropped
   top : Array Nat := #[]                    -- naming table: k-th node created by a top-level action
